@@ -537,6 +537,73 @@ def life_jobs(tier, seed, ops, checks=None, rejects=False, depth=None, over=None
     return jobs
 
 
+# ---------------------------------------------------------------------------
+# Simulator (Sim.tla, TraceSim.tla)
+def _sim_common(report, want_c15, want_c16):
+    from harness import sim, tlc
+    thorough = report.tier == "thorough"
+    consts = dict(Ns={8, 10, 12, 16} if thorough else {8, 12}, TestSizes={(1, 4), (1, 2), (3, 8)},
+                  Batches={0, 1, 2, 3, 4} if thorough else {0, 1, 3}, Orders={True, False})
+    result = tlc.run("Sim", consts, invariants=["Inv_C15_EachRowOnce", "Inv_C15_LearnAfterPredict"], view=None,
+                     constraint=None, workers=1, timeout=600)
+    if result.violated:
+        raise Machinery("Sim.tla: %s violated" % result.violated)
+    report.add_tlc("Sim/protocol-scripts", result, ["Inv_C15_EachRowOnce", "Inv_C15_LearnAfterPredict"],
+                   note="every (n, test_size, ordered, batch_size) with its public-API script")
+    confs = result.edges
+    findings, counters, records = [], {}, []
+    lists = sim.LISTS
+    k = 0
+    for conf in confs:
+        picks = lists if thorough else [lists[(k + report.seed + j * 3) % len(lists)] for j in range(4)]
+        for names in picks:
+            for is_quick in (False, True):
+                if len(names) and min(conf["n"] - conf["T"], conf["n"]) < 4 and any(n.startswith("knn") for n in names):
+                    continue
+                sim.run_config(conf, names, report.seed + k, is_quick, findings, counters, records)
+                k += 1
+    res, ok, fails = sim.validate(records)
+    report.add_tlc("TraceSim/recorded-runs", res, note="%d Simulator runs, public attributes recomputed exactly" % len(records))
+    missing = set(range(1, len(records) + 1)) - ok - set(fails)
+    if missing:
+        raise Machinery("TraceSim gave no verdict for runs %s" % sorted(missing)[:5])
+    for tid, clause in fails.items():
+        rec = records[tid - 1]
+        findings.append({"clause": "trace." + clause, "detail": "TraceSim rejects the reported attributes of a Simulator run "
+                         "(clause %s): %s" % (clause, json.dumps(rec)[:700]), "op": "simulate", "label": {"run": tid},
+                         "path": [], "binding": {"bandits": [b["name"] for b in rec["bandits"]]}, "engine": "sim"})
+    c15 = ("predictions", "expectations", "run.exception", "replay.exception")
+    for f in findings:
+        is15 = f["clause"].startswith(c15)
+        if (is15 and want_c15) or (not is15 and want_c16):
+            report.findings.append(f)
+    report.traces += len(records)
+    report.replayed += counters.get("bandit_runs", 0)
+    for key, v in counters.items():
+        report.count("sim." + key, v)
+    report.evaluations = counters.get("bandit_runs", 0) + len(records)
+    report.nontrivial = set(range(counters.get("bandit_runs", 0) if want_c15 else len(records)))
+    report.samples += [{"engine": "Sim.tla script replayed through the public API", "config": c} for c in confs[3:5]]
+    if records:
+        report.samples.append({"engine": "Simulator run validated by TraceSim.tla", "run": records[0]})
+
+
+def c15(report):
+    report.nontrivial_rule = ("(configuration, bandit) pairs: Simulator.run() compared with the TLC-emitted public-API script "
+                              "executed on a deep copy of the original bandit")
+    _sim_common(report, True, False)
+    report.assumptions += ["test sizes are dyadic so that the split arithmetic is exact in floating point",
+                           "expectations are compared for deterministic learning policies only (as the property states); for the "
+                           "internally replaced Radius/KNearest/LSHNearest bandits they are read from a deep copy"]
+
+
+def c16(report):
+    report.nontrivial_rule = "Simulator runs whose reported attributes were recomputed exactly by TraceSim.tla"
+    _sim_common(report, False, True)
+    report.assumptions += ["std is not compared (irrational); rewards are small integers so that every reported statistic is an "
+                           "exact rational"]
+
+
 def _nontrivial_from_counts(report, key=None):
     # distinct non-trivial cases are counted by the replay engine per job (distinct spec states / edges)
     n = report.coverage.get(key, 0) if key else report.coverage.get("cf.states", 0)
@@ -544,7 +611,7 @@ def _nontrivial_from_counts(report, key=None):
     report.evaluations = report.replayed
 
 
-CHECKS = {"C01": c01, "C02": c02, "C03": c03, "C05": c05, "C11": c11, "C12": c12, "C06": c06, "C07": c07, "C08": c08, "C09": c09, "C10": c10, "C13": c13, "C14": c14,
+CHECKS = {"C01": c01, "C02": c02, "C03": c03, "C05": c05, "C11": c11, "C12": c12, "C06": c06, "C07": c07, "C08": c08, "C09": c09, "C10": c10, "C13": c13, "C14": c14, "C15": c15, "C16": c16,
           "C17": c17, "C19": c19}
 
 
